@@ -8,8 +8,12 @@ CONSTANTS
   T = 2
   MaxNow = 3
   MaxOps = 1000000
+  SyncHttpClientIds = FALSE
+  Record = FALSE
+  Defect_NoArmOnSync = FALSE
+  Defect_TakeoverKeepsOrigin = FALSE
   Defect_ClientSetBeforeOwner = FALSE
 VIEW StateView
-INVARIANTS CountsMatch HealthyCountsMatch PerpetualMatches IndexedOnce ClientSetSound ClientSetComplete ArmedHealthy ArmedUnhealthy
-PROPERTIES NeverExpireWhileBeating NeverExpireGrpcOrPersistent ExpiredAfterSweep
+INVARIANTS CountsMatch HealthyCountsMatch PerpetualMatches IndexedOnce ClientSetSound ClientSetComplete ArmedHealthy ArmedUnhealthy OwnedSupervised
+PROPERTIES NeverExpireWhileBeating NeverExpireGrpcOrPersistent ExpiredAfterSweep OwnedExpiredAfterSweep
 CHECK_DEADLOCK FALSE
